@@ -63,8 +63,23 @@ impl Prop for C14 {
         // injective label renaming to fresh valid identifiers
         let mut labels = BTreeMap::new();
         let mut n = 0;
+        // every label name of the program: defined ones and names that are only used (undefined labels)
+        let mut names: Vec<String> = vec![];
         for l in &base.lines {
-            if let Line::Label(s) = l {
+            match l {
+                Line::Label(s) => names.push(s.clone()),
+                Line::Ins(i) => {
+                    for o in &i.ops {
+                        if let Opd::L(s) = o {
+                            names.push(s.clone());
+                        }
+                    }
+                }
+                _ => {}
+            }
+        }
+        for s in &names {
+            {
                 if !labels.contains_key(s) && ch.chance(2, 3) {
                     n += 1;
                     let new = match ch.below(6) {
